@@ -72,7 +72,9 @@ Record ccase := {
   c_phs : list str;                   (* placeholders of the converted rule *)
   c_sargs : args;                     (* what the specification counts as granted by the caller / in force *)
   i_load : N; i_tree : option otree; i_conv : option N;
-  i_trace_load : list effect; i_trace_conv : list effect; i_leak : bool
+  i_trace_load : list effect; i_trace_conv : list effect; i_leak : bool;
+  i_unsandboxed : bool                (* some template object evaluates outside Jinja2's sandbox (class of its environment
+                                         and a probe expression `x.__class__` rendered in that environment) *)
 }.
 
 (* the scratch tree of the implementation harness (impl/c16.py), by construction: path string -> physical
@@ -129,6 +131,16 @@ Definition std_loadable : list str := Eval vm_compute in
    lit "/$ROOT/pipe/../outside/v_out.py";
    lit "/$ROOT/pipealias/v_pipe.py"].
 
+(* template files of the scratch tree: (directory, name, text) *)
+Definition std_tpl : list (str * str * str) := Eval vm_compute in
+  [(lit "/$ROOT/tpl", lit "q.j2", lit "P{{ query }}");
+   (lit "/$ROOT/tpl", lit "f.j2", lit "{{ queries|join(';') }}");
+   (lit "/$ROOT/tpl", lit "hostile_q.j2", lit "{{ query.__class__ }}");
+   (lit "/$ROOT/tpl", lit "hostile_f.j2", lit "{{ cycler.__init__.__globals__.os.popen('echo C16PWN').read() }}")].
+Definition tpl_lookup (d n : str) : option str :=
+  match filter (fun x => str_eqb (fst (fst x)) d && str_eqb (snd (fst x)) n) std_tpl with
+  | x :: _ => Some (snd x) | [] => None end.
+
 Definition unknown_comp : str := lit "?unknown".
 Definition real_of (tbl : list (str * list str)) (s : str) : list str :=
   match assoc s tbl with Some c => c | None => [unknown_comp; s] end.
@@ -136,7 +148,8 @@ Definition real_of (tbl : list (str * list str)) (s : str) : list str :=
 Definition env_of (c : ccase) : env :=
   {| e_ext := c_env_ext c; e_tv := c_env_tv c; real := real_of (c_real c);
      loadable := fun p => mem_str p (c_loadable c);
-     fetch_ok := fun s => existsb (source_eqb s) (c_fetch_ok c) |}.
+     fetch_ok := fun s => existsb (source_eqb s) (c_fetch_ok c);
+     tpl_file := tpl_lookup |}.
 
 Fixpoint has_optin_key (d : yv) : bool :=
   match d with
@@ -152,7 +165,7 @@ Definition judge (c : ccase) : N :=
   let merged := fun t => {| t_items := t_items t ++ repeat NPlain (c_extra c); t_post := t_post t; t_fin := t_fin t |} in
   let mtree := match fst lr with Ok t => Some (obs_tree (merged t)) | _ => None end in
   let cr := match fst lr with
-            | Ok t => let r := convert E (merged t) (c_phs c) in (Some (oclass (fst r)), snd r)
+            | Ok t => let r := convert_full E (c_doc c) (merged t) (c_phs c) in (Some (oclass (fst r)), snd r)
             | _ => (None, [])
             end in
   let agree :=
@@ -160,9 +173,10 @@ Definition judge (c : ccase) : N :=
       strs_eqb (c_loadable c) std_loadable &&
       N.eqb (oclass (fst lr)) (i_load c) && option_eqb otree_eqb mtree (i_tree c) &&
       option_eqb N.eqb (fst cr) (i_conv c) &&
-      list_eqb effect_eqb (snd lr) (i_trace_load c) && list_eqb effect_eqb (snd cr) (i_trace_conv c) in
+      list_eqb effect_eqb (snd lr) (i_trace_load c) && list_eqb effect_eqb (snd cr) (i_trace_conv c) &&
+      negb (i_unsandboxed c) in
   let spec := spec_ok (c_sargs c) (env_grants (c_env_ext c)) (env_grants (c_env_tv c)) (real_of (c_real c))
-                      (i_tree c) (i_trace_load c ++ i_trace_conv c) (i_leak c) in
+                      (i_tree c) (i_trace_load c ++ i_trace_conv c) (i_leak c) (i_unsandboxed c) in
   let dom := negb (unmodelled (fst lr)) in
   let nontriv := has_optin_key (c_doc c) || negb (N.eqb (i_load c) 0)
                  || match i_conv c with Some 0 => false | _ => true end
@@ -174,4 +188,4 @@ Definition model_view (c : ccase) :=
   let E := env_of c in
   let lr := if N.eqb (c_entry c) 3 then load_resolver E (c_doc c) (c_src c)
             else load_yaml E (c_doc c) (c_args c) (if N.eqb (c_entry c) 2 then Some (c_src c) else None) in
-  (fst lr, snd lr, match fst lr with Ok t => Some (convert E t (c_phs c)) | _ => None end).
+  (fst lr, snd lr, match fst lr with Ok t => Some (convert_full E (c_doc c) t (c_phs c)) | _ => None end).
